@@ -41,6 +41,10 @@ def tasks(tier, seed):
     for alpha, depth in plans:
         for first in range(len(alphabet(alpha))):
             ts.append({"alpha": alpha, "depth": depth, "first": first, "name": "%s/%d/%d" % (alpha, depth, first)})
+    # the caller keeps ONE header option object (list / dict) and passes it to every handshake of the history
+    for hdr in ("list", "dict"):
+        for first in range(len(alphabet("small"))):
+            ts.append({"alpha": "small", "depth": 2 if tier == "quick" else 3, "first": first, "hdr": hdr, "name": "small+%s/%d" % (hdr, first)})
     return ts
 
 
@@ -59,7 +63,7 @@ def response_bytes(key, resp):
     return HS.response_101(key, extra=extra)
 
 
-def do_connect(host, cookie, resp):
+def do_connect(host, cookie, resp, header=None):
     """One real handshake to ws://host/ answered with `resp` (or a plain 101). Returns the Cookie header values sent."""
     st = {}
 
@@ -74,6 +78,8 @@ def do_connect(host, cookie, resp):
     opts = {"socket": sock}
     if cookie is not None:
         opts["cookie"] = cookie
+    if header is not None:
+        opts["header"] = header
     ws.connect("ws://%s/" % host, **opts)
     return st["req"]["h"].get("cookie")
 
@@ -94,6 +100,9 @@ class Harness:
         env.install_urandom("counter")
         ref = {}
         hist = []
+        header = {"list": ["X-App: 1"], "dict": {"X-App": "1"}}.get(d.get("hdr"))
+        if header is not None:
+            hist.append("<one caller-owned header %s for all handshakes>" % d["hdr"])
         for step in range(d["depth"]):
             if step == 0:
                 resp = self.alpha[d["first"]]
@@ -105,7 +114,7 @@ class Harness:
                 resp = self.alpha[k]
             pays, dom = resp
             hist.append("%s;Domain=%s" % (",".join("%s=%s" % p for p in pays), dom))
-            do_connect("setter.example", None, resp)
+            do_connect("setter.example", None, resp, header)
             if dom is not None:
                 dd = dom.lower()
                 if not dd.startswith("."):
@@ -118,7 +127,7 @@ class Harness:
             # probe every target in this state
             for t in TARGETS:
                 for caller in (None, "c=9"):
-                    got = do_connect(t, caller, None)
+                    got = do_connect(t, caller, None, header)
                     items = []
                     for dd, cookies in ref.items():
                         if covers(dd, t.lower()):
